@@ -388,8 +388,9 @@ def r2(ctx, F, rule, sfx):
             ta, tb = repr(a), repr(b)
             if {ta, tb} == {'k', '0'} and op in ('==', '!='):
                 return ('K0', op == '==')
-            if 'BinaryHeap::len(' in ta + tb and 'k' in (ta, tb):
-                lhs_len = 'BinaryHeap::len(' in ta
+            pure_len = lambda x_: isinstance(x_, RF) and I.single_atom(x_) is not None and 'BinaryHeap::len' in str(I.single_atom(x_).name) and x_ == RF.atom(I.single_atom(x_))
+            if (pure_len(a) and tb == 'k') or (pure_len(b) and ta == 'k'):      # exactly len(heap) against k (len(heap) + 1 == k is another condition)
+                lhs_len = pure_len(a)
                 full = {'==': True, '!=': False, '<': not lhs_len, '>=': lhs_len, '>': None, '<=': None}[op]
                 if full is not None:
                     return ('FULL', full)
